@@ -30,6 +30,10 @@ type labRun struct {
 	Convert  bool
 	// VeneersDir: directory with builder veneer files (*.yaml), "" = none
 	VeneersDir string
+	// CUE library package loaded as a first input and importable from the main package as
+	// "example.com/<LibPackage>" (LibPath "" = single input)
+	LibPath    string
+	LibPackage string
 }
 
 func (lr labRun) pipeline() (*codegen.Pipeline, error) {
@@ -45,10 +49,20 @@ func (lr labRun) pipeline() (*codegen.Pipeline, error) {
 		in.OpenAPI = &codegen.OpenAPIInput{Path: lr.Path, Package: lr.Package}
 	case "cue":
 		in.Cue = &codegen.CueInput{Entrypoint: lr.Path, Package: lr.Package}
+		if lr.LibPath != "" {
+			in.Cue.CueImports = []string{lr.LibPath + ":example.com/" + lr.LibPackage}
+		}
 	default:
 		return nil, fmt.Errorf("unknown format %s", lr.Format)
 	}
 	p.Inputs = []*codegen.Input{in}
+	if lr.LibPath != "" {
+		if lr.Format != "cue" {
+			return nil, fmt.Errorf("a library package is only supported for cue")
+		}
+		lib := &codegen.Input{Cue: &codegen.CueInput{Entrypoint: lr.LibPath, Package: lr.LibPackage}}
+		p.Inputs = []*codegen.Input{lib, in}
+	}
 	p.Output.Directory = "%l"
 	p.Output.Types = true
 	p.Output.Builders = lr.Builders
